@@ -76,6 +76,12 @@ func c15Spec(shape, lives string) kit.Spec {
 		// the dependency is declared as an interface type: a nil result is a nil interface
 		p := kit.Reg{ID: 1, Life: l(1), Err: true, Outs: []kit.Out{{T: "IA", Conc: "D1"}}, Deps: []kit.Dep{{T: "D2"}}}
 		return kit.Spec{Regs: []kit.Reg{reg(0, "D0", kit.Dep{T: "IA"}), p, reg(2, "D2")}}
+	case "resobj-err":
+		// a result-object constructor with an error second return
+		p := kit.Reg{ID: 1, Life: l(1), Err: true, ResObj: true, Outs: []kit.Out{{T: "D1"}, {T: "D2", Key: "k"}}, Deps: []kit.Dep{{T: "D3"}}}
+		a := reg(0, "D0", kit.Dep{T: "D1"}, kit.Dep{T: "D2", Key: "k"})
+		a.In = true
+		return kit.Spec{Regs: []kit.Reg{a, p, reg(3, "D3")}}
 	case "multi":
 		m := kit.Reg{ID: 1, Life: l(1), Err: true, Outs: []kit.Out{{T: "D1"}, {T: "D2"}}, Deps: []kit.Dep{{T: "D3"}}}
 		return kit.Spec{Regs: []kit.Reg{reg(0, "D0", kit.Dep{T: "D2"}, kit.Dep{T: "D1"}), m, reg(3, "D3")}}
@@ -593,12 +599,12 @@ func firstLineErr(e error) string {
 func init() {
 	mc.Register(&mc.Check{
 		Prop:        "C15",
-		Rule:        "fault sequences: 7 dependency shapes (chain, diamond, group consumer, In-struct with key/optional, optional-but-registered dependencies, two-output producer, interface-typed producer) x 5 lifetime patterns x every registration x invocation 1..3 x {returns error, returns nil, panics with string / error / struct / nil}; each execution: Build, scope, three attempts at the root service, a second scope, Close; oracle: no panic escapes, an error fault is reachable with errors.As (same pointer), a panic fault is a ConstructorPanicError carrying the value, retries without a pending fault succeed, lifetime / wiring / disposal oracles hold (nothing half-built is cached, nothing successfully built is rebuilt or leaked). API inputs: ~1,000 calls of every exported entry point with nil / typed-nil / zero / unregistered / mismatched / invalid arguments must not panic; Must* helpers panic iff the plain call errs. Error classes: 30 routes through Build / resolution / registration / module wrappers must be recognisable with errors.Is/As. distinct = canonical observation strings.",
+		Rule:        "fault sequences: 8 dependency shapes (chain, diamond, group consumer, In-struct with key/optional, optional-but-registered dependencies, two-output producer, interface-typed producer, result-object producer with an error return) x 5 lifetime patterns x every registration x invocation 1..3 x {returns error, returns nil, panics with string / error / struct / nil}; each execution: Build, scope, three attempts at the root service, a second scope, Close; oracle: no panic escapes, an error fault is reachable with errors.As (same pointer), a panic fault is a ConstructorPanicError carrying the value, retries without a pending fault succeed, lifetime / wiring / disposal oracles hold (nothing half-built is cached, nothing successfully built is rebuilt or leaked). API inputs: ~1,000 calls of every exported entry point with nil / typed-nil / zero / unregistered / mismatched / invalid arguments must not panic; Must* helpers panic iff the plain call errs. Error classes: 30 routes through Build / resolution / registration / module wrappers must be recognisable with errors.Is/As. distinct = canonical observation strings.",
 		Assume:      []string{"keys are hashable (the property's precondition)", "a constructor returning a typed nil pointer is accepted as an instance: only 'no panic, consistent retry' is demanded there"},
 		MinOutcomes: 10,
 		Jobs: func(tier string) []mc.Job {
 			jobs := []mc.Job{{Name: "c15-inputs", Weight: 5, Run: c15Inputs}, {Name: "c15-classes", Run: c15Classes}}
-			for _, sh := range []string{"chain", "diamond", "group", "instruct", "optional", "multi", "iface"} {
+			for _, sh := range []string{"chain", "diamond", "group", "instruct", "optional", "multi", "iface", "resobj-err"} {
 				sh := sh
 				jobs = append(jobs, mc.Job{Name: "c15-faults/" + sh, Weight: 3, Run: func(r *mc.Report) { c15Faults(r, sh) }})
 			}
